@@ -127,6 +127,6 @@ template <sz N> void window()
 #define H(name, ...) VERIF_HARNESS(name) { __VA_ARGS__; }
 H(h_clamps_i64_1, clamps<std::int64_t, 1>()) H(h_clamps_i64_2, clamps<std::int64_t, 2>()) H(h_clamps_i64_3, clamps<std::int64_t, 3>())
 H(h_clamps_i32_1, clamps<std::int32_t, 1>()) H(h_clamps_i32_2, clamps<std::int32_t, 2>()) H(h_clamps_i32_3, clamps<std::int32_t, 3>())
-//@harness h_clamps_{T}_{N} for T in i64,i32 for N in 1,2,3 tier=quick
+//@harness h_clamps_{T}_{N} for T in i64,i32 for N in 1,2,3 tier=quick hang_s=60
 H(h_window_1, window<1>()) H(h_window_2, window<2>()) H(h_window_3, window<3>())
-//@harness h_window_{N} for N in 1,2,3 tier=quick
+//@harness h_window_{N} for N in 1,2,3 tier=quick hang_s=60
